@@ -36,7 +36,7 @@ class C11(object):
 
     # ------------------------------------------------------------------ generation
     def gen(self, rng, tier):
-        n_cases = 320 if tier == 'quick' else 7000
+        n_cases = 320 if tier == 'quick' else 40000
         for _ in range(n_cases):
             kind = rng.choice(KINDS)
             yield self.desubnull(getattr(self, 'gen_' + kind)(rng))
